@@ -94,8 +94,13 @@ type outerVar struct {
 
 func (e *SpecEnv) evalSum(n *SQuant) Value {
 	u := e.u
-	if curFloatSort == SF {
-		e.fail("sum/count is not available in 'ieee' units")
+	// In an `ieee` unit the summand is evaluated over the reals (integer-derived quantities such as MIG slices x instances:
+	// no NaN/Inf can arise from them) and the finite sum is embedded as fin(sum). A summand that reads float64 state of an
+	// ieee unit (sort F) is rejected below.
+	ieee := curFloatSort == SF
+	if ieee {
+		curFloatSort = SReal
+		defer func() { curFloatSort = SF }()
 	}
 	outerBound := e.bound
 	nb := map[string]Value{}
@@ -272,6 +277,9 @@ func (e *SpecEnv) evalSum(n *SQuant) Value {
 	gt := types.Typ[types.Int]
 	if rs == SReal {
 		gt = types.Typ[types.Float64]
+		if ieee {
+			return Sc{toF(t), gt}
+		}
 	}
 	return Sc{t, gt}
 }
